@@ -235,7 +235,7 @@ func (e *Engine) externalModel(fr *frame, ins ssa.Instruction, name string, fn *
 		if len(args) > 0 {
 			if sc, ok := args[0].(Sc); ok && sc.S == SStr {
 				for lit, c := range e.lits {
-					if c == sc.T && (strings.HasPrefix(lit, "error: ") || strings.HasPrefix(lit, "err: ") || strings.HasPrefix(lit, "alert: ")) {
+					if c == sc.T && errorLevelPrefix(lit) {
 						e.ghostEvent("logerror", reach, "")
 					}
 				}
@@ -328,4 +328,16 @@ func (e *Engine) noteParse(pfx, base, bits string) {
 		}
 	}
 	e.parseCalls = append(e.parseCalls, k)
+}
+
+
+// errorLevelPrefix: the log line prefixes colog maps to the error level (or above) in gosk: colog's
+// defaults plus the two headers cmd/gosk registers ("Error: ", "Error "; pinned by a calls clause on main).
+func errorLevelPrefix(lit string) bool {
+	for _, p := range []string{"error: ", "err: ", "alert: ", "Error: ", "Error "} {
+		if strings.HasPrefix(lit, p) {
+			return true
+		}
+	}
+	return false
 }
